@@ -166,7 +166,7 @@ def prune_newest(ctx):
               'RevisionMap::keep no longer truncates with LinkedList::split_off', 'split_off', kb.where())
     for c in so:
         nr = [r for r in root_descr(kb, c.args[1]) if r[0] == 'param']
-        ctx.check(any(kb.var_name(r[1]) == 'n' for r in nr), kb.key, 'split_off(n)',
+        ctx.check(any(kb.local_ty(r[1]) == 'usize' for r in nr), kb.key, 'split_off(n)',
                   'split_off is not applied at the requested length n', 'at = n', c.where())
         other_muts = [x for x in kb.calls(r'LinkedList::<[^>]*>::(pop_front|pop_back|clear|push_front|push_back|append|retain)$')]
         ctx.check(not other_muts, kb.key, 'no-other-mutation', 'keep also mutates the chain through %s' % [x.name for x in other_muts],
